@@ -325,7 +325,7 @@ RULES = [
 
 
 from . import shared
-RULES = RULES + shared.bundle('C06', ['drivers', 'gpu', 'carry', 'gate', 'restart', 'driver', 'values', 'stride', 'loops'], ['details'])
+RULES = RULES + shared.bundle('C06', ['product-layout', 'drivers', 'gpu', 'carry', 'gate', 'restart', 'driver', 'values', 'stride', 'loops'], ['details'])
 from .. import refs as _refs
 RULES = RULES + [_refs.ref_rule('C06')]
 
